@@ -619,6 +619,13 @@ pub fn run_case(prog: &Vec<Vec<Step>>, hist: &[Act]) -> Result<(), Fail> {
     if a != fa { fail!("C15", "C15.bounded.different_types_never_share_a_cached_output", "T(0) returned {} next to U(0), alone it returns {}", a, fa); }
     if b == a || ex.iter().filter(|e| e.as_str() == "T(0)").count() < 2 { fail!("C15", "C15.bounded.different_types_never_share_a_cached_output", "U(0) got {} (T(0) got {}), executions of `T(0)`-looking tasks: {:?}", b, a, ex); }
   }
+  // ... and a task wrapped in Rc / Arc is a task of its own: executing the wrapper executes the wrapped body directly, it does not go
+  // through the node (and cached output) of the task it wraps
+  let r = catch_unwind(AssertUnwindSafe(|| { let mut p3 = new_pie(); set_map(&mut p3, &cur); let mut s = p3.new_session(); let a = s.require(&std::rc::Rc::new(T(k))); let b = s.require(&std::sync::Arc::new(T(k))); drop(s); (a, b, p3.tracker().0.executed()) }));
+  if let Ok((a, b, ex)) = r {
+    let n = ex.iter().filter(|e| e.as_str() == "T(0)").count();
+    if n != 2 || a != b { fail!("C15", "C15.bounded.a_wrapped_task_is_a_task_of_its_own", "requiring Rc<T(0)> and Arc<T(0)> (and nothing else) executed {} tasks that print `T(0)` (expected the two wrappers only), results {} / {}", n, a, b); }
+  }
   Ok(())
 }
 
